@@ -406,6 +406,28 @@ fn panic_class(p: &str) -> String {
     format!("panic@{}:{}", file, msg_kind(p))
 }
 
+/// The real clone_cmd on a file holding `bytes`, with `seed` as --seed (inside an isolated worker).
+pub fn judge_cli(bytes: &[u8], seed: &[u8], agg: &mut Agg, detail: &dyn Fn() -> Value) {
+    let dir = scratch_dir("c15cli");
+    let (apath, spath, out) = (dir.path().join("a.cba"), dir.path().join("seed.bin"), dir.path().join("out.bin"));
+    std::fs::write(&apath, bytes).unwrap();
+    std::fs::write(&spath, seed).unwrap();
+    let rt = tokio::runtime::Builder::new_current_thread().enable_all().build().unwrap();
+    agg.add("operations", 1);
+    agg.add("cli_operations", 1);
+    crate::isolate::case_tick();
+    let args = c04::cli_clone_args(apath.to_str().unwrap(), &out, &["--seed".to_string(), spath.to_str().unwrap().to_string()]);
+    match c04::cli_clone(&rt, args) {
+        Err(p) => agg.viol(&panic_class(&p), || {
+            let mut j = detail();
+            j["panic"] = json!(p);
+            j
+        }),
+        Ok(Ok(())) => agg.add("ended_in_success", 1),
+        Ok(Err(_)) => agg.add("ended_in_reported_error", 1),
+    }
+}
+
 /// Run one operation on one byte string, in-process (inside an isolated worker).
 pub fn judge_bytes(bytes: &[u8], op: OpKind, agg: &mut Agg, detail: &dyn Fn() -> Value) {
     let reader = IoReader::new(Cursor::new(bytes.to_vec()));
@@ -567,8 +589,19 @@ impl IsoCtx {
             let m = &self.singles_huge[job % self.singles_huge.len()];
             let bytes = mutated_archive(b, std::slice::from_ref(m));
             agg.add("mutated_headers_single", 1);
+            let endless_at_start = agg.classes.iter().filter(|(k, _)| k.starts_with("unbounded-work:endless-chunk-stream")).map(|(_, c)| c.count).sum::<u64>();
             for op in OPS {
                 judge_bytes(&bytes, op, agg, &|| json!({"leg": "field-mutation", "base": b.name, "mutation": mutn_label(m), "archive": hex(&bytes[..bytes.len().min(900)])}));
+            }
+            // ... and through the real clone_cmd on files, with a seed that holds the archive's chunks (what the
+            // command computes and prints around the library calls is part of what a hostile header reaches)
+            // (not when the library operations on this very archive already ran into the endless chunk stream of
+            // known finding F8.g: the command scans its seed with the same chunker and has no horizon)
+            let endless_before = agg.classes.iter().filter(|(k, _)| k.starts_with("unbounded-work:endless-chunk-stream")).map(|(_, c)| c.count).sum::<u64>();
+            if endless_before > endless_at_start {
+                agg.add("cli_operations_skipped_endless_scan", 1);
+            } else {
+                judge_cli(&bytes, &b.source, agg, &|| json!({"leg": "field-mutation", "base": b.name, "mutation": mutn_label(m), "op": "clone_cmd --seed <source>", "archive": hex(&bytes[..bytes.len().min(900)])}));
             }
             // the same archive through the HTTP reader (its own run detection and buffering)
             let lab = self.lab.get_or_init(HttpLab::new);
@@ -654,7 +687,8 @@ fn server_leg(rep: &mut Report) {
         let lab = HttpLab::new();
         let dir = scratch_dir("c15srv");
         let out = dir.path().join("out.bin");
-        let faults = [HF::Extra(1), HF::Extra(5000), HF::Status(500), HF::Status(204), HF::Empty, HF::LengthLie(7), HF::Redirect, HF::Garbage, HF::FullFile, HF::ErrorPage(404), HF::ShortBody(0), HF::WrongBytes, HF::CutAfter(0), HF::RedirectLoop(300)];
+        let faults = [HF::Extra(1), HF::Extra(5000), HF::Status(500), HF::Status(204), HF::Empty, HF::LengthLie(7), HF::Redirect, HF::Garbage, HF::FullFile, HF::ErrorPage(404), HF::ShortBody(0), HF::WrongBytes, HF::CutAfter(0), HF::RedirectLoop(300),
+            HF::BadContentRange(0), HF::BadContentRange(1), HF::BadContentRange(2), HF::BadContentRange(3), HF::BadContentRange(4)];
         let nreq = 2 + b.built.dict.chunk_descriptors.len();
         for at in 0..nreq {
             for f in &faults {
@@ -741,7 +775,7 @@ pub fn run(rep: &mut Report) {
     rep.set("evaluations", json!(ev));
     rep.set("distinct_nontrivial", json!(rep.agg.get("mutated_headers_single") + rep.agg.get("mutated_headers_pair") + rep.agg.get("dictionary_byte_mutations") + rep.agg.distinct_count("server_case_kinds")));
     rep.set("exhaustive", json!(true));
-    rep.set("rule", json!("(i) every single-bit flip and truncation of three small valid archives, cloned with and without a seed; (ii) structurally valid headers with re-computed checksum written by the independent encoder: every field of every message (chunker parameters, compression, sizes, checksums' lengths, rebuild indexes, descriptor sizes/offsets, chunk data offset, missing sub-messages, duplicated / missing descriptors, 100 kB version string) set to every value of an adversarial alphabet, singly (quick) and in all pairs (thorough), each opened + info-printed, cloned, cloned with a seed (recorded chunker parameters in use) and cloned in place; (ii-b) every byte of the protobuf dictionary replaced by each of its 8 single-bit flips and by {00, 01, 7f, 80, ff} under a re-computed checksum (the decoder sees well-checksummed but structurally damaged dictionaries); (iii) 14 server misbehaviours (incl. a redirect chain of 300 hops that only a client-side hop limit ends) at every request position with retry budget 0 and 2 through the real clone_cmd; every case in an isolated worker with a 6 GiB address-space limit, a 20 s per-operation watchdog and chunk-count horizons; oracle: success or reported error, never panic / process death / watchdog / horizon; non-trivial = distinct mutated headers + distinct server cases"));
+    rep.set("rule", json!("(i) every single-bit flip and truncation of three small valid archives, cloned with and without a seed; (ii) structurally valid headers with re-computed checksum written by the independent encoder: every field of every message (chunker parameters, compression, sizes, checksums' lengths, rebuild indexes, descriptor sizes/offsets, chunk data offset, missing sub-messages, duplicated / missing descriptors, 100 kB version string) set to every value of an adversarial alphabet, singly (quick) and in all pairs (thorough), each opened + info-printed, cloned, cloned with a seed (recorded chunker parameters in use) and cloned in place; (ii-b) every byte of the protobuf dictionary replaced by each of its 8 single-bit flips and by {00, 01, 7f, 80, ff} under a re-computed checksum (the decoder sees well-checksummed but structurally damaged dictionaries); (iii) 19 server misbehaviours (incl. five malformed Content-Range values and a redirect chain of 300 hops that only a client-side hop limit ends) at every request position with retry budget 0 and 2 through the real clone_cmd; every case in an isolated worker with a 6 GiB address-space limit, a 20 s per-operation watchdog and chunk-count horizons; oracle: success or reported error, never panic / process death / watchdog / horizon; non-trivial = distinct mutated headers + distinct server cases"));
     rep.assume("a chunk may legitimately declare up to 2^32-1 bytes (pre-allocated by decompress); only one such buffer exists at a time in these runs");
     rep.assume("byte strings not reachable by <= 2 simultaneous field mutations or a single bit flip / truncation are not covered");
 }
